@@ -131,7 +131,26 @@ def orient (d : Dir) (i1 i2 : Inst) : Inst × Inst :=
   | .fwd => (i1, i2)
   | .rev => (i2, i1)
 
+/-- in the instance pool of its class (created and not deleted): for a created instance, NOT live = it is in its
+    metaclass's `deleted` set -/
+def live (s : State) (x : Inst) : Prop := x < s.count ∧ x ∈ s.pool (s.kindOf x)
+
+instance (s : State) (x : Inst) : Decidable (live s x) := by unfold live; exact inferInstance
+
+/-- `relate`: `_find_link` (UnknownLinkException first), then the guard
+    `for inst in (inst1, inst2): if inst in get_metaclass(inst).deleted: raise RelateException` — a deleted instance
+    must not become reachable again —, then the two connects -/
 def relate (sch : Schema) (s : State) (i1 i2 : Inst) (rel phrase : String) : State × Out :=
+  match findLink sch (s.kindOf i1) (s.kindOf i2) rel phrase with
+  | none => (s, .unknownLink)
+  | some (i, d) =>
+    if live s i1 ∧ live s i2 then
+      let r := relateOn (specAt sch i) (s.links i) (orient d i1 i2).1 (orient d i1 i2).2
+      ({ s with links := upd s.links i r.1 }, r.2)
+    else (s, .relateExc)
+
+/-- `relate` without the liveness guard (what `relate` does for two live instances; a device of the proofs) -/
+def relateCore (sch : Schema) (s : State) (i1 i2 : Inst) (rel phrase : String) : State × Out :=
   match findLink sch (s.kindOf i1) (s.kindOf i2) rel phrase with
   | none => (s, .unknownLink)
   | some (i, d) =>
@@ -202,10 +221,6 @@ def step (sch : Schema) (s : State) : Op → State × Out
   | .delete x => delete sch s x
 
 def run (sch : Schema) (ops : List Op) : State := ops.foldl (fun s op => (step sch s op).1) init
-
-def live (s : State) (x : Inst) : Prop := x < s.count ∧ x ∈ s.pool (s.kindOf x)
-
-instance (s : State) (x : Inst) : Decidable (live s x) := by unfold live; exact inferInstance
 
 /-! referential attribute reads (`Association.formalize`): the property installed by the LAST
     formalised association that declares `attr` as a source key is consulted first; when the
